@@ -9,10 +9,10 @@ of statement starts (bound) and with a watchdog (liveness).
 """
 import copy
 
-from .. import gen_exec
+from .. import gen_exec, interloper
 from ..core import Stats, Violation, stream, digest_of, SimWatchdog, HarnessError
 from ..driver import RunResult
-from ..realrun import run_real, run_ref, compare_outcomes, norm_events
+from ..realrun import run_real, run_ref, compare_outcomes, norm_events, interloper_probe
 
 PROP = 'C09'
 LEVEL = 'fault_enumeration'
@@ -64,6 +64,9 @@ def gen(seed, tier, extra=None):
     plan['scenario'] = 'default-limit' if rng.random() < 0.04 else 'limits'
     plan['sim_options'] = rng.random() < 0.8
     plan['float_limits'] = rng.random() < 0.2      # the documented default is written 1e9: limits may be floats
+    ri = stream(seed, 'interloper')
+    if ri.random() < 0.3:
+        plan['interloper_spec'] = interloper.spec(ri)
     return plan
 
 
@@ -155,6 +158,12 @@ def run(plan, stats):
         if real0.count != n:
             viols.append(Violation(PROP, 'count', 'count-lost:' + feat,
                                    {'statementCount': real0.count, 'reference': n, 'seam_starts': real0.starts}))
+        # nested independent uses of the library inside the callbacks neither change this run nor its count
+        if not viols:
+            lim_i = 0 if plan.get('seed', 0) % 2 else n + 1
+            base_i = real0 if lim_i == 0 else run_real(plan, limit=lim_i, sim_options=True, max_starts=n * 3 + 200)
+            viols.extend(interloper_probe(plan, stats, PROP, base_i,
+                                          lambda p: run_real(p, limit=lim_i, sim_options=True, max_starts=n * 3 + 200)))
         # the counter restarts with every execution: a second run that re-uses the SAME options object (under a
         # limit that the two runs together would exceed) behaves like the first
         if n >= 1 and plan.get('seed', 0) % 3 == 0:
